@@ -67,7 +67,10 @@ CHECKS = {
         "interp_of_encode: the spec maps every encoder output back to the encoded value (cross-check against C01/C03). Integers: C05.int_accessor_exact; floats' values: C12; Size introspection: size_head/tail_sound. "
         "Correspondence: wire trees (all scalar shapes x widths x boundaries, containers at every width and indefinite, tags, chunked strings, random trees) x all 25 "
         "accessors incl. non-matching ones, plus every strict prefix, typed decode of the 189 types on strict prefixes and re-framings, judged by the property's oracle computed from the tree, and compared with the model; the typed iterators "
-        "array_iter / array_iter_with / map_iter behind nth, skip, step_by, take, last, count against the same script written with plain next() calls (no model op).",
+        "array_iter / array_iter_with / map_iter behind nth, skip, step_by, take, last, count against the same script written with plain next() calls AND against the model's iterator (Iter.lean: state (left, rest) + iterNext, "
+        "the core::iter adaptors spelled out through next; Thm/Iter: drain_definite / drain_indefinite / arrayIter_is_next_loop / mapIter_is_next_loop — next-until-None IS the drained loop every "
+        "Decode impl of a sequence / map runs — definite_fused, indefinite_not_fused); ONE Decoder through scripts of 40..1000 typed decodes / accessors / abandoned iterators / probes at chosen "
+        "positions, most failing half way, against a fresh decoder per step (decoder-reuse: a decoder is its input and a position).",
    design="5/C04", technique="Lean 4 proof (head read-back lemmas; initial-byte classes; a compositional 'stable under input extension' relation over the decoder monad incl. fuelled loops; "
         "forward simulation of every Decode impl against a wire-tree interpreter by mutual structural induction over type descriptors, reusing C06 skip exactness) + differential correspondence with tree-derived oracle",
    note="FULL for the model: 'matching -> exact value and position', 'non-matching -> error, never a different value' and 'strict prefix -> end-of-input' are theorems for all accessors and for typed decoding. "
@@ -352,7 +355,9 @@ CHECKS = {
         "async_alloc/offset_le_four (every source behaviour: buffer <= max_len, offsets in range), async_oversize_rejected (InvalidLen; the reader then stays in ReadLen(_,4) and repeats it). "
         "Correspondence: ~225k aread scenarios on the real AsyncReader with hand-polled futures (no-op waker), futures dropped where the schedule says: all compositions of streams <=10 bytes "
         "x <=2 Pendings anywhere x all keep/drop decisions; one transient error at every position; every truncation point; bad / over-long frames; random walks; 31..300 frames in one scenario with a "
-        "drop after every / a third of / no poll; with_buffer constructors (empty, pre-allocated, dirty vector); judged by the property's oracle on the implementation transcript and compared with the model.",
+        "drop after every / a third of / no poll; with_buffer constructors (empty, pre-allocated, dirty vector); set_max_len between a dropped read and the next one with the payload partly read "
+        "(AReader.setMaxLen; theorem set_max_len_frame_in_flight: in state ReadVal the limit is not consulted, the frame in flight completes); sources whose vectored entry points really scatter; "
+        "judged by the property's oracle on the implementation transcript and compared with the model.",
    design="5/C15", technique="Lean 4 proof (state/stream representation invariant; induction over scripts and over schedules) + differential correspondence with in-orchestrator oracle; oracle validated against 6 seeded mutants (offset / prefix progress kept in the future, ...)",
    note="full strength for the model; 'eventually' is stated as the counting theorem async_reader_complete under the explicit fairness hypothesis (script not exhausted). Wakers and real executors "
         "are not modelled (the harness polls unconditionally). The scripted source honours the AsyncRead contract. No source hook needed."),
